@@ -11,6 +11,7 @@ import EmuVerif.Props.C27
 #print axioms EmuVerif.Props.C27.finallyReplace_counterexample
 #print axioms EmuVerif.Props.C27.finallyReplace_same_ops
 #print axioms EmuVerif.Props.C27.aliased_counterexample
+#print axioms EmuVerif.Props.C27.appended_temp_name_distinct
 #print axioms EmuVerif.Props.C27.threeStep_counterexample
 #print axioms EmuVerif.Props.C27.threeStep_not_crash_safe
 #print axioms EmuVerif.Props.C27.threeStep_data_not_lost
